@@ -63,6 +63,51 @@ theorem toReal_riemann (d : Dom ℝ) (hd : C07.DInv d) (F : Array ℝ) (i : ℕ)
     intro S; field_simp; ring
   exact key _
 
+theorem w_nonneg (N j : ℕ) : 0 ≤ TrigSums.w N j := by unfold TrigSums.w; split <;> norm_num
+
+/-- **the half-cell offset of the backward transform costs at most `dr/2` times a first moment**: `to_real(F)(r_i)` differs
+from the exact-phase sine sum `(dk/(2π² r_i)) Σ' k_j F_j sin(k_j r_i)` — the Riemann sum in `k` of the continuous inverse
+transform `(1/(2π² r)) ∫ F k sin(kr) dk` on the grid's own wavenumbers — by at most `(dr/2)·(dk/(2π² r_i)) Σ' k_j² |F_j|`.
+For transforms that decay (so that the moment stays bounded as `k_max = π/dr` grows) this is the `O(dr)` error of the backward
+transform at fixed `r`. -/
+theorem toReal_phase_bound (d : Dom ℝ) (hd : C07.DInv d) (hdr : 0 < d.dr) (hdk : 0 < d.dk) (F : Array ℝ) (i : ℕ) (hi : i < d.length) :
+    |(d.toReal F)[i]! - (d.dk / (2 * π ^ 2 * (((i : ℝ) + 1) * d.dr))) *
+        ∑ j ∈ range d.length, TrigSums.w d.length j * ((((j : ℝ) + 1) * d.dk) * F[j]! * Real.sin ((((j : ℝ) + 1) * d.dk) * (((i : ℝ) + 1) * d.dr)))|
+      ≤ (d.dr / 2) * ((d.dk / (2 * π ^ 2 * (((i : ℝ) + 1) * d.dr))) *
+        ∑ j ∈ range d.length, TrigSums.w d.length j * ((((j : ℝ) + 1) * d.dk) ^ 2 * |F[j]!|)) := by
+  rw [toReal_riemann d hd F i hi, ← mul_sub, ← Finset.sum_sub_distrib, abs_mul]
+  have hpre : 0 < d.dk / (2 * π ^ 2 * (((i : ℝ) + 1) * d.dr)) := by positivity
+  rw [abs_of_pos hpre]
+  suffices hmain : |∑ j ∈ range d.length, (TrigSums.w d.length j * ((((j : ℝ) + 1) * d.dk) * F[j]! * Real.sin ((((j : ℝ) + 1) * d.dk) * ((((i : ℝ) + 1) * d.dr) - d.dr / 2)))
+          - TrigSums.w d.length j * ((((j : ℝ) + 1) * d.dk) * F[j]! * Real.sin ((((j : ℝ) + 1) * d.dk) * (((i : ℝ) + 1) * d.dr))))|
+      ≤ d.dr / 2 * ∑ j ∈ range d.length, TrigSums.w d.length j * ((((j : ℝ) + 1) * d.dk) ^ 2 * |F[j]!|) by
+    calc _ ≤ d.dk / (2 * π ^ 2 * (((i : ℝ) + 1) * d.dr)) * (d.dr / 2 * ∑ j ∈ range d.length, TrigSums.w d.length j * ((((j : ℝ) + 1) * d.dk) ^ 2 * |F[j]!|)) :=
+          mul_le_mul_of_nonneg_left hmain hpre.le
+      _ = _ := by ring
+  rw [Finset.mul_sum]
+  calc |∑ j ∈ range d.length, (TrigSums.w d.length j * ((((j : ℝ) + 1) * d.dk) * F[j]! * Real.sin ((((j : ℝ) + 1) * d.dk) * ((((i : ℝ) + 1) * d.dr) - d.dr / 2)))
+          - TrigSums.w d.length j * ((((j : ℝ) + 1) * d.dk) * F[j]! * Real.sin ((((j : ℝ) + 1) * d.dk) * (((i : ℝ) + 1) * d.dr))))|
+      ≤ ∑ j ∈ range d.length, |TrigSums.w d.length j * ((((j : ℝ) + 1) * d.dk) * F[j]! * Real.sin ((((j : ℝ) + 1) * d.dk) * ((((i : ℝ) + 1) * d.dr) - d.dr / 2)))
+          - TrigSums.w d.length j * ((((j : ℝ) + 1) * d.dk) * F[j]! * Real.sin ((((j : ℝ) + 1) * d.dk) * (((i : ℝ) + 1) * d.dr)))| :=
+        Finset.abs_sum_le_sum_abs _ _
+    _ ≤ ∑ j ∈ range d.length, d.dr / 2 * (TrigSums.w d.length j * ((((j : ℝ) + 1) * d.dk) ^ 2 * |F[j]!|)) := by
+        apply Finset.sum_le_sum
+        intro j _
+        have hw := w_nonneg d.length j
+        have hk : 0 < ((j : ℝ) + 1) * d.dk := by positivity
+        rw [← mul_sub, ← mul_sub, abs_mul, abs_mul, abs_mul, abs_of_nonneg hw, abs_of_pos hk]
+        have hsin : |Real.sin ((((j : ℝ) + 1) * d.dk) * ((((i : ℝ) + 1) * d.dr) - d.dr / 2)) - Real.sin ((((j : ℝ) + 1) * d.dk) * (((i : ℝ) + 1) * d.dr))|
+            ≤ (((j : ℝ) + 1) * d.dk) * (d.dr / 2) := by
+          calc _ ≤ |(((j : ℝ) + 1) * d.dk) * ((((i : ℝ) + 1) * d.dr) - d.dr / 2) - (((j : ℝ) + 1) * d.dk) * (((i : ℝ) + 1) * d.dr)| := Real.abs_sin_sub_sin_le _ _
+            _ = (((j : ℝ) + 1) * d.dk) * (d.dr / 2) := by
+                rw [← mul_sub, abs_mul, abs_of_pos hk]; congr 1
+                rw [show (((i : ℝ) + 1) * d.dr - d.dr / 2 - ((i : ℝ) + 1) * d.dr) = -(d.dr / 2) by ring, abs_neg, abs_of_pos (by positivity)]
+        calc TrigSums.w d.length j * ((((j : ℝ) + 1) * d.dk) * |F[j]!| * |Real.sin ((((j : ℝ) + 1) * d.dk) * ((((i : ℝ) + 1) * d.dr) - d.dr / 2)) - Real.sin ((((j : ℝ) + 1) * d.dk) * (((i : ℝ) + 1) * d.dr))|)
+            ≤ TrigSums.w d.length j * ((((j : ℝ) + 1) * d.dk) * |F[j]!| * ((((j : ℝ) + 1) * d.dk) * (d.dr / 2))) := by
+              apply mul_le_mul_of_nonneg_left _ hw
+              apply mul_le_mul_of_nonneg_left hsin (by positivity)
+          _ = d.dr / 2 * (TrigSums.w d.length j * ((((j : ℝ) + 1) * d.dk) ^ 2 * |F[j]!|)) := by ring
+
 /-- **first-order accuracy of the forward transform.**  Let `g(r) = r f(r)` be continuous, bounded by `M₀` and
 `M₁`-Lipschitz, and let the array hold the samples `f(r_i)`.  Then at every grid wavenumber `k_j`
 `|to_fourier(f)(k_j) − (4π/k_j) ∫₀^{r_max} f(r) r sin(k_j r) dr| ≤ (4π/k_j) · r_max · (M₁ + M₀ k_j / 2) · dr`:
